@@ -336,6 +336,10 @@ def apply_model(sym, n, f, vals, mut_idx, st):
         return V(("fmtargs", (("txt", vals[0][2]),) if vals[0][0] == "lit" else (("dyn", vals[0]),), ()))
     if p == "std::fmt::format" and len(vals) == 1:
         return V(("format", vals[0]))
+    # OnceLock / OnceCell / LazyLock: the cell's value is what the initialiser returns (each rule that relies on this checks that
+    # the cell is only ever reached through get_or_init)
+    if re.match(r"^std::(sync|cell)::Once(Lock|Cell)(::<[^>]*>)?::get_or_init$", p) and len(vals) == 2 and vals[1][0] in ("closure", "fnref"):
+        return sym.apply(vals[1], [], st, n)
     # calling a closure / fn item through the Fn* traits (a generic `f: impl Fn(..)` parameter applied to arguments)
     if p in ("std::ops::Fn::call", "std::ops::FnMut::call_mut", "std::ops::FnOnce::call_once") and len(vals) == 2 \
             and vals[0][0] in ("closure", "fnref") and vals[1][0] == "tuple":
